@@ -419,7 +419,9 @@ def localChanReq (m : Mux) (call h : Nat) (want : Bool) : Option (Mux × Evs) :=
     | some (loc, c) =>
       if !c.decided then some (m, [s!"R{call}=und"]) else
       let c := if want then { c with reqPending := true, msgQ := [] } else c       -- gate + drain
-      if c.sentClose then some (putBack m loc { c with reqPending := false }, [s!"R{call}=err"]) else
+      if c.sentClose then
+        -- sendMessage fails (io.EOF); only a wantReply call had opened the gate and closes it again on return
+        some (putBack m loc { c with reqPending := if want then false else c.reqPending }, [s!"R{call}=err"]) else
       let ev := s!"w98:{c.remoteId}:{if want then 1 else 0}"
       if !want then some (putBack m loc c, [ev, s!"R{call}=nowait"])
       else some (putBack m loc { c with requester := some call }, [ev])
